@@ -1,9 +1,10 @@
 import PauLieVerif.Model.CmdPS
 import PauLieVerif.Model.CmdGraph
+import PauLieVerif.Model.CmdClassify
 
 open PauLie
 
-def handlers : List (String → Option String) := [CmdPS.handle, CmdGraph.handle]
+def handlers : List (String → Option String) := [CmdPS.handle, CmdGraph.handle, CmdClassify.handle]
 
 def respond (line : String) : String :=
   match handlers.findSome? (fun h => h line) with
